@@ -512,6 +512,15 @@ func (d *Document) SetDocGrid(gridType DocGridType, linePitch int, charSpace int
 // ClearDocGrid 清除文档网格设置
 func (d *Document) ClearDocGrid() error {
 	sectPr := d.getSectionProperties()
+	if sectPr.PageSize == nil {
+		// 还没有写入过任何页面设置：先写入当前（默认）设置，
+		// 这样"已清除网格"才能与"尚未设置"（读取时报告默认网格）区分开
+		settings := d.GetPageSettings()
+		settings.DocGridType = ""
+		if err := d.SetPageSettings(settings); err != nil {
+			return err
+		}
+	}
 	sectPr.DocGrid = nil
 	return nil
 }
